@@ -285,7 +285,7 @@ pub fn drive(args: &[String]) {
         let nkeys = 8 + rng.below(9) as usize;
         let mut keys: Vec<u64> = vec![];
         while keys.len() < nkeys {
-            let x = if rng.chance(1, 2) { rng.below(40) } else { rng.next() };
+            let x = match rng.below(7) { 0..=2 => rng.below(40), 3 => boundary_key(&mut rng), _ => rng.next() };
             if !keys.contains(&x) {
                 keys.push(x);
             }
